@@ -334,6 +334,38 @@ def _cold_pass(payload, st):
                          dict(case, cut=cut, cold=True))
             break
 
+    # the same document (and a sample of its truncations) when it does not
+    # start at offset 0 of its stream
+    for k in (1, 96, 1000):
+        for cut in sorted(set([len(data)] + list(
+                range(0, len(data) + 1, max(1, len(data) // 25))))):
+            stream = sut.open_stream(data[:cut], ('offset', k))
+            recs, err = sut.read_records_from(stream)
+
+            if err is not None and not isinstance(err, ns.DiffXParseError):
+                continue
+
+            lo, hi = 0, max(0, len(recs) - 1)
+
+            if len(recs) > len(exp):
+                hi = len(exp)
+
+            res = foreign.compare(recs[lo:hi], exp[lo:hi])
+
+            if res is None and cut == len(data) and (
+                    err is not None or len(recs) != len(exp) or
+                    foreign.compare(recs, exp) is not None):
+                res = ('intact', 'the intact document is not read '
+                       'correctly: %r, %d of %d records'
+                       % (err, len(recs), len(exp)))
+
+            if res is not None:
+                st.violation('truncation-altered-section-at-stream-offset',
+                             'document starting at stream offset %d, cut '
+                             '%d: %s' % (k, cut, res[1][:300]),
+                             dict(case, cut=cut, cold=True))
+                break
+
     # object model, longest first: a failed load must not leak into the next
     n = len(data)
     dom_cuts = sorted(set(range(0, min(n, 120) + 1)) |
